@@ -38,6 +38,14 @@ def cases(draw, tier):
     d = D(draw)
     if d.p(25):
         case = draw(gen.election_cases(tier='quick', equal_for_meek=True))
+        o = case['options']
+        if case['rule'] in ('wigm', 'meek', 'warren') and o.get('arithmetic', 'guarded') == 'guarded' and d.p(35):
+            # guard digits on display: figures below the comparison tolerance (a residual of rounding loss only, a keep
+            # factor one guard unit under 1) are visible in every rendering and must be printed as stored
+            pp = o.get('precision', 18)
+            gg = o.get('guard', pp // 2 if case['rule'] != 'wigm' else None)
+            if isinstance(pp, int) and isinstance(gg, int) and gg >= 1:
+                case['options'] = dict(o, display=pp + d.int(1, gg))
         return dict(kind='count', case=case, display2=d.int(0, 14))
     cls = d.choice(['fixed', 'fixed', 'guarded', 'guarded', 'rational'])
     p = d.int(0, 8) if d.p(70) else d.int(0, 20)
@@ -177,6 +185,9 @@ def check(case):
     return res
 
 
+FIGURE_CLAUSES = ('dump-figure', 'report-totals', 'report-status', 'report-header')
+
+
 def walk_values(a):
     "all (path, exact value) figures of a decoded action"
     for k in ('quota', 'votes', 'nt_votes', 'residual', 'surplus'):
@@ -231,6 +242,18 @@ def check_count(wrapper):
         if res.violations:
             break
     check_text(res, js['quota'], frac(o.record['quota']), d, cls, ar.precision, base + '|json', 'json quota')
+    # every figure of the text report (candidate lines and the per-method totals fragment) and of the dump is the printed form
+    # of the recorded value: the parsers are C18's, the reference printer is this module's; only figure clauses are taken over
+    # (layout, status labels and entry order are C18's business)
+    if not res.violations:
+        from . import C18
+        sub = Result()
+        C18.check_dump(sub, 'x', ar, o.record, o.actions, o.dump, o.record['method'])
+        C18.check_report(sub, 'x', ar, o.record, o.actions, o.report, o.record['method'], o, case)
+        for v in sub.violations:
+            if v.clause in FIGURE_CLAUSES and '|keys|' not in v.sig and (v.clause != 'report-header' or '|quota|' in v.sig):
+                res.fail('render-figure', '%s|%s' % (base, v.sig.split('|x')[0]), v.detail)
+                break
     # a different display setting changes no value used in the count
     c2 = dict(case)
     c2['options'] = dict(case.get('options') or {})
@@ -246,6 +269,8 @@ def check_count(wrapper):
     if st['surplus_transfers'] or o.iterations >= 2:
         res.nontrivial = True
     res.tag('count')
+    if cls == 'guarded' and d > ar.precision:
+        res.tag('count-guard-digits-shown')
     if neg:
         res.tag('count-with-negative-figure')
     return res
